@@ -14,8 +14,8 @@ def sweep(id, family='R', **kw):
 CHECKS = {
  'C01': dict(
     rule="generated pairs of finite raw values (independent and result-targeted) x {+,-,+=,-=}, 17 inlined call shapes, and generated programs with compile-time constant operands, each evaluated on every build configuration (8 quick / 32 thorough: GCC and Clang, -O0..-O3, c++17/20/2b); non-trivial = the exact result leaves [lowest,max] or lies within 2^17 of the limit; distinctness = 64-bit hash of (clause, arguments)",
-    clauses=[rc('C01.addsub', 4000000, 320000000), rc('C01.shape', 4000000, 320000000), rc('C01.const', 3000000, 240000000, kprog=True), sweep('C01.grid')],
-    floors={'C01.addsub': {'overflow': 0.10, 'at-boundary+-3': 0.01}, 'C01.shape': {'overflow': 0.10}, 'C01.const': {'overflow': 0.10}}),
+    clauses=[rc('C01.addsub', 4000000, 320000000), rc('C01.shape', 4000000, 320000000), rc('C01.const', 3000000, 240000000, kprog=True), rc('C01.expr', 3000000, 240000000, kprog=True), sweep('C01.grid')],
+    floors={'C01.addsub': {'overflow': 0.10, 'at-boundary+-3': 0.01}, 'C01.shape': {'overflow': 0.10}, 'C01.const': {'overflow': 0.10}, 'C01.expr': {'overflow': 0.05}}),
 
  'C02': dict(
     rule="generated (a,b) pairs for fixed*fixed (independent, product-targeted at +-2^63 / +-MAXF*2^16, complementary bit lengths) and (a,n) for every integral type in both operand orders and *=; evaluated on every build configuration; non-trivial = |raw product| >= 2^62 (fixed*fixed) or product out of range / >= 2^56 (scalar)",
@@ -87,7 +87,7 @@ CHECKS = {
     clauses=[rc('C07.entry', 30000000, 100000000, family='S'), rc('C07.trap', 10000000, 50000000, family='R')], floors={'C07.entry': {'@nontrivial': 0.4}}),
  'C08': dict(
     rule="(entry point, in-domain arguments) over the whole inventory, bit-identical results across all build configurations (same sqrt algorithm group)",
-    clauses=[rc('C08.diff', 20000000, 400000000), sweep('C08.consts')], floors={}),
+    clauses=[rc('C08.diff', 20000000, 400000000), rc('C08.prog', 4000000, 200000000, kprog=True), sweep('C08.consts')], floors={}),
 }
 
 # ----------------------------------------------------------------------------- engine E4: constant evaluation
